@@ -2,9 +2,12 @@
 from . import kernel
 from .world import CLUSTER_LPS, CONTEXT_FREE, LINEAR, TREE_LPS
 
+TIER_SCALE = 1      # set by the driver: 1 for quick, 2 for thorough (longer histories in half of the runs)
+
 ARM_POOLS = {
     "int": [1, 2, 3, 4, 5, 6, 7, 8, 9],
-    "str": ["a", "b", "c", "d", "e", "f", "g", "h", "i"],
+    # labels of unequal length on purpose (fixed-width numpy string dtypes truncate silently: 'Arm1' vs 'Arm10')
+    "str": ["a", "bb", "ccc", "d", "ee", "f", "gggg", "h", "ii"],
     "float": [0.5, 1.5, 2.5, 3.5, 4.5, 5.5, 6.5, 7.5, 8.5],
 }
 METRICS_EXACT = ["cityblock", "chebyshev", "sqeuclidean", "euclidean"]
@@ -186,6 +189,8 @@ def gen_history(rnd, cfg, spare, d, regime, n_ops, arm_changes=True, warm=False,
     """A generic valid history: fit first, then a drawn mix of partial_fit / queries / arm changes / refits.
     `sched` is a callable(rnd, op) -> schedule record or None, attached to each operation."""
     from .world import is_contextual
+    if TIER_SCALE > 1 and rnd.random() < 0.5:
+        n_ops = min(30, n_ops * TIER_SCALE)
     ctxl = is_contextual(cfg)
     arms = list(cfg["arms"])
     spare = list(spare)
